@@ -96,7 +96,9 @@ let classify ?(third = third_repair) (sy : sys) (en : enc) (entry : int) (all : 
               else if entry = 0 && is_sig_def && List.mem sn (state_syms 0) then "use-before-declare:init-signal-reads-state"
               else if entry = 0 && is_state_def && List.mem sn (state_syms 0) then
                 (* with patches/0003 the states are in dependency order: what is left is a dependency cycle *)
-                (if third then "use-before-declare:init-dependency-cycle" else "use-before-declare:init-reads-later-state")
+                (if not third then "use-before-declare:init-reads-later-state"
+                 else if init_order_complete_b en then "use-before-declare:init-states-not-in-dependency-order"
+                 else "use-before-declare:init-dependency-cycle")
               else if entry > 0 && is_sig_def then "use-before-define:later-entry-signal-over-next-only-signal"
               else "use-before-declare:other"
         end
